@@ -125,8 +125,20 @@ func (c CryptoReader) Read(p []byte) (int, error) {
 	if !Active() {
 		return c.Orig.Read(p)
 	}
+	if g := Self(); g != nil && g.Rand != nil {
+		g.Rand.RawFill(p)
+		return len(p), nil
+	}
 	cur.Load().St.Fill(p)
 	return len(p), nil
+}
+
+// SetRand gives the calling goroutine its own source for crypto/rand, so
+// that what it draws does not depend on what other goroutines draw.
+func SetRand(st *Stream) {
+	if g := Self(); g != nil {
+		g.Rand = st
+	}
 }
 
 // ---- network ---------------------------------------------------------------
